@@ -19,8 +19,11 @@ EXHAUSTIVE = {'quick': 'all tables n,m<=3 (682) x {Lindig, CbO, Sofia} x all con
 EXPLANATION = ('every observable except the chain decomposition is pinned uniquely by the property, so the implementation\'s '
                'answers are compared with the Lean-side spec (extent inclusion, lowerCovers/upperCovers, intersections of '
                'extents/intents); chains and listing are judged by the Lean checkers chainsOk/listingOk; the Lean theorems '
-               'Fca.C03.* prove model = spec for every concept list that enumerates allConcepts t; the Lindig cache '
-               'initialisation and re-indexing model is compared with the implementation\'s caches')
+               'Fca.C03.* prove model = spec for every concept list that enumerates allConcepts t (incl. chains_correct: the '
+               'model\'s get_chains is accepted by chainsOk), lindig_path_correct proves the children_dict initialisation + '
+               're-indexing model (run with the proved fuel closedFuel n) yields the spec relations of the sorted list, and '
+               'pruned_relations/pruned_top_bottom cover lattices after deletions; the Lindig cache model is also compared '
+               'with the implementation\'s caches on every default-algorithm case')
 ASSUMPTIONS = ['the concept list is a duplicate-free enumeration of all concepts of the table (C02; re-checked here on every case '
                'by Spec.isConceptList)',
                'query indexes are valid concept indexes; Sofia is run with its default limit L_max=100 >= number of concepts']
@@ -265,7 +268,15 @@ def judge(c, io, rep):
     pruned = bool(c.get('dyn')) and c['dyn'][0] == 'del'
     if pruned:
         # a sub-list of the concepts (top and bottom kept): the order relations are still those of extent inclusion
-        # within the list; meet/join/chains/listing are not judged here
+        # within the list; meet/join/chains/listing are not judged here (theorems Fca.C03.pruned_relations /
+        # pruned_top_bottom: model = spec for every duplicate-free list of concepts of the table)
+        if not r['hypSub']:
+            return P('concepts', f'after deletions the list is not a duplicate-free list of concepts of the table: {io["cs"]}')
+        for m_, s_ in (('desc', 'sdesc'), ('anc', 'sanc'), ('children', 'lower'), ('parents', 'upper')):
+            if r[m_] != r[s_]:
+                return dict(ok=False, kind='harness', detail=f'pruned: model {m_} {r[m_]} != spec {r[s_]}')
+        if [r['top']] != r['stop'] or [r['bottom']] != r['sbottom'] or not r['orderIndep']:
+            return dict(ok=False, kind='harness', detail='pruned: model top/bottom/order-independence inconsistent with spec')
         for f, s_, name in (('desc', 'sdesc', 'descendants'), ('anc', 'sanc', 'ancestors'),
                             ('children', 'lower', 'children'), ('parents', 'upper', 'parents')):
             if io[f] != r[s_]:
